@@ -46,6 +46,46 @@ class Abort(BaseException):
     """Raised inside virtual threads to unwind them when an execution is torn down."""
 
 
+class _Worker(object):
+    """A long-lived OS thread that carries one virtual thread per execution (creating an OS thread costs
+    several milliseconds on this machine, far more than a typical execution)."""
+    def __init__(self):
+        self.job = None
+        self.go = threading.Semaphore(0)
+        self.idle = threading.Event()
+        self.idle.set()
+        self.thread = threading.Thread(target=self._main, name='vt-worker')
+        self.thread.daemon = True
+        self.thread.start()
+
+    def _main(self):
+        while True:
+            self.go.acquire()
+            job, self.job = self.job, None
+            try:
+                job()
+            finally:
+                self.idle.set()
+
+    def give(self, job):
+        self.idle.clear()
+        self.job = job
+        self.go.release()
+
+
+_WORKERS = {'pid': None, 'workers': []}
+
+
+def _worker(i):
+    import os
+    if _WORKERS['pid'] != os.getpid():            # threads do not survive fork()
+        _WORKERS['pid'], _WORKERS['workers'] = os.getpid(), []
+    ws = _WORKERS['workers']
+    while len(ws) <= i:
+        ws.append(_Worker())
+    return ws[i]
+
+
 class VT(object):
     def __init__(self, tid, name, target):
         self.tid, self.name, self.target = tid, name, target
@@ -96,11 +136,14 @@ class Scheduler(object):
     # ------------------------------------------------------------------ threads
     def spawn(self, target, name=None):
         vt = VT(len(self.threads), name or 'T%d' % len(self.threads), target)
+        w = _worker(vt.tid)
+        if not w.idle.wait(10.0):
+            _WORKERS['workers'] = []
+            raise HarnessError('worker thread of a previous execution is still busy')
+        vt.os_thread = w.thread
+        vt.worker = w
         self.threads.append(vt)
-        th = threading.Thread(target=self._bootstrap, args=(vt,), name='vt-' + vt.name)
-        th.daemon = True
-        vt.os_thread = th
-        th.start()
+        w.give(lambda: self._bootstrap(vt))
         return vt
 
     def _bootstrap(self, vt):
@@ -294,12 +337,14 @@ class Scheduler(object):
                            % (watchdog, self.current, self.steps))
                 self.done_evt.wait(2.0)
                 raise HarnessError('execution hung: %s' % (self.failure,))
-            # make sure all OS threads are gone
+            # make sure every worker has finished its virtual thread
             if self.aborting:
                 for t in self.threads:
                     t.sem.release()
             for t in self.threads:
-                t.os_thread.join(5.0)
+                if not t.worker.idle.wait(10.0):
+                    _WORKERS['workers'] = []          # never reuse a stuck worker
+                    raise HarnessError('execution hung: worker of %r did not finish (%s)' % (t, self.failure,))
         finally:
             vthreading.RT.sched = None
         if self.failure and self.failure[0] == 'harness':
